@@ -5,3 +5,4 @@ pub mod c09;
 pub mod c19;
 pub mod c04;
 pub mod c18;
+pub mod c08;
